@@ -61,6 +61,7 @@ class Transaction:
         self._written_files: List[str] = []
         # GC-protection markers written for those files
         self._inflight_markers: List[str] = []
+        self._inflight_paths: Set[str] = set()
 
         self._lock = threading.RLock()
 
@@ -79,6 +80,7 @@ class Transaction:
             self._operations = []
             self._written_files = []
             self._inflight_markers = []
+            self._inflight_paths = set()
 
             return self
 
@@ -329,8 +331,7 @@ class Transaction:
         return self
 
     def _has_inflight_marker(self, file_path: str) -> bool:
-        marker_name = file_path.rsplit("/", 1)[-1]
-        return f"{_INFLIGHT_PATH}/{marker_name}.inflight" in self._inflight_markers
+        return file_path.lstrip("/") in self._inflight_paths
 
     def _register_inflight(self, file_path: str) -> None:
         """Write a GC-protection marker for a file this transaction is about to
@@ -342,11 +343,18 @@ class Transaction:
         metadata commit that makes it reachable. Marker write failures
         propagate - a file is never written unprotected (fail closed).
         """
+        # One marker per (transaction, file): the name carries a random suffix.
+        # Named by basename alone, files with the same basename in different
+        # directories ('data/p=1/part-0.parquet', 'data/p=2/part-0.parquet')
+        # shared ONE marker - the second file was never protected, and a
+        # transaction finishing removed the marker another one relied on. The
+        # collector takes the protected path from the payload, not the name.
         marker_name = file_path.rsplit("/", 1)[-1]
-        marker_path = f"{_INFLIGHT_PATH}/{marker_name}.inflight"
+        marker_path = f"{_INFLIGHT_PATH}/{marker_name}.{uuid.uuid4().hex[:8]}.inflight"
         marker_payload = json.dumps({"file_path": file_path.lstrip("/")}).encode("utf-8")
         self.file_manager.storage.write_file(marker_path, marker_payload)
         self._inflight_markers.append(marker_path)
+        self._inflight_paths.add(file_path.lstrip("/"))
 
     def delete_files(self, file_paths: List[str]) -> "Transaction":
         """Queue files to delete from the table"""
@@ -670,6 +678,7 @@ class Transaction:
             except Exception:
                 pass
         self._inflight_markers = []
+        self._inflight_paths = set()
         self._written_files = []
 
     def rollback(self) -> bool:
@@ -716,6 +725,7 @@ class Transaction:
 
         self._written_files = []
         self._inflight_markers = []
+        self._inflight_paths = set()
 
         return True
 
